@@ -9,17 +9,9 @@ from values import pval_j, eval_table
 
 LEVEL = "proof"
 MODULE = "Phil.Props.C10"
-LEVEL_TEXT = ("Lean theorems about the converter model, for all word lists, all constructor-argument combinations and all "
-              "answers of the eval oracle: fromWords ok v -> InDomain type v (int never non-integral/non-finite, bounds, sizes, "
-              "None/Auto gates), the bool spelling table is exactly the accepted set, integral floats are accepted for int. "
-              "The model is tied to /repo by a correspondence run of from_words over a constraint x value-text grid (CPython's "
-              "int()/eval answers travel with the request); the oracle re-checks the domain predicate on the implementation's "
-              "results against the arguments DECLARED in the type expression (never the converter object's attributes) and a "
-              "fixed table of spellings that must be accepted. Types whose bound literals lie outside the model's type grammar "
-              "(non-integer bound on int/ints, exponent or non-dyadic literals) are evaluated by the oracle only.")
-LEVEL_NOTE = ("eval() and float parsing are CPython's (parameter of the model). ints beyond 2^53 given to float types are outside "
-              "the modelled domain. Finding D22: float/floats with value_min/value_max accept nan (nan compares false).")
-TECHNIQUE = "Lean 4 theorem fromWords_in_domain over all inputs/constraints + differential correspondence with eval answers as parameters"
+LEVEL_TEXT = "Lean theorems about the converter model, for all word lists, all constructor-argument combinations and all answers of the eval oracle: fromWords ok v -> InDomain type v (fromWords_in_domain: int never non-integral/non-finite, bounds incl. nan, sizes, None/Auto gates), the bool spelling table is exactly the accepted set, integral expressions are accepted for int; whole trees: extract_tree_in_domain, fetchRoot_extract_in_domain. Constructor defaults are tied to the source by regenerated tables. Tied to /repo by a correspondence run of from_words over a generated pool of type expressions (every keyword present/absent, integral / fractional / float-spelled bounds) x value texts placed at and next to each bound, definitions reached via parse / deepcopy / pickle / fetch; the oracle checks results against the domain DECLARED in the type expression text (not the converter's stored state)."
+LEVEL_NOTE = "eval() and float parsing are CPython's (parameter of the model). Types outside the model's type grammar (non-integral bounds on int types, exponent forms) go to the oracle only and are counted."
+TECHNIQUE = 'Lean 4 theorem fromWords_in_domain over all inputs/constraints + differential correspondence with eval answers as parameters + declared-domain oracle'
 RULE = ("built-in numeric/bool/list types with constructor-argument combinations (a fixed list plus a generated pool: every keyword "
         "present or absent, bounds from integral / fractional / float-spelled-integral literals of either sign for every numeric "
         "type, sizes, None/Auto gates) x value texts from a grammar of numbers, expressions, separators, brackets, "
